@@ -46,8 +46,13 @@ def snap_dm(dm):
         s[f"dominated{int(strict)}"] = dom.dominated(strict=strict).to_numpy().tolist()
         s[f"dominators{int(strict)}"] = [[repr(x) for x in dom.dominators_of(a, strict=strict)] for a in dm.alternatives]
         s[f"loops{int(strict)}"] = bool(dom.has_loops(strict=strict))
-    # the same query spelled without the keyword (memoisation keys differ by spelling)
+    # the same queries spelled without the keyword / through __call__ (memoisation keys differ by spelling)
     s["dominators_default"] = [[repr(x) for x in dom.dominators_of(a)] for a in dm.alternatives]
+    s["dom_default"] = dom.dominance().to_numpy().tolist()
+    s["dom_call"] = dom("dominance", strict=False).to_numpy().tolist()
+    s["dominated_default"] = dom.dominated().to_numpy().tolist()
+    s["compare_first_last"] = dom.compare(dm.alternatives[0], dm.alternatives[-1]).to_numpy().tolist()
+    s["compare_last_first"] = dom.compare(dm.alternatives[-1], dm.alternatives[0]).to_numpy().tolist()
     s["bt"] = dom.bt().to_numpy().tolist()
     s["eq"] = dom.eq().to_numpy().tolist()
     s["describe"] = b64(dm.describe().to_numpy())
@@ -58,7 +63,10 @@ def snap_dm(dm):
 def snap_res(r):
     return {"values": np.asarray(r.values).tolist(), "alternatives": [repr(a) for a in r.alternatives],
             "series": r.to_series().to_numpy().tolist(), "index": [repr(a) for a in r.to_series().index],
-            "method": r.method, "names": [r.to_series().index.name, r.to_series().name]}
+            "method": r.method, "names": [r.to_series().index.name, r.to_series().name],
+            "untied_series": r.to_series(untied=True).to_numpy().tolist(),
+            "untied_index": [repr(a) for a in r.to_series(untied=True).index],
+            "untied_names": [r.to_series(untied=True).index.name, r.to_series(untied=True).name]}
 
 
 # ---- the enumerated accessor surface ---------------------------------------------------------------------------
@@ -83,6 +91,15 @@ DM_ACC = [
     ("dominance.eq", lambda dm: dm.dominance.eq()), ("dominance.dominance", lambda dm: dm.dominance.dominance()),
     ("dominance.compare", lambda dm: dm.dominance.compare(dm.alternatives[0], dm.alternatives[-1])),
     ("dominance.dominated", lambda dm: dm.dominance.dominated()),
+    ("dominance.dominance(strict=False)", lambda dm: dm.dominance.dominance(strict=False)),
+    ("dominance.dominance(strict=True)", lambda dm: dm.dominance.dominance(strict=True)),
+    ("dominance('dominance',strict=False)", lambda dm: dm.dominance("dominance", strict=False)),
+    ("dominance.dominated(strict=False)", lambda dm: dm.dominance.dominated(strict=False)),
+    ("dominance.dominated(strict=True)", lambda dm: dm.dominance.dominated(strict=True)),
+    ("dominance.bt()", lambda dm: dm.dominance("bt")),
+    ("dominance.compare(last,first)", lambda dm: dm.dominance.compare(dm.alternatives[-1], dm.alternatives[0])),
+    ("dominance.dominators_of(strict=False)", lambda dm: dm.dominance.dominators_of(_most_dominated(dm), strict=False)),
+    ("stats.describe", lambda dm: dm.stats("describe")), ("stats.max", lambda dm: dm.stats.max()),
     ("dominance.dominators_of", lambda dm: dm.dominance.dominators_of(_most_dominated(dm))),
 ]
 RES_ACC = [
@@ -275,8 +292,9 @@ def run_history(case):
                 rs = routes_for(obj)
                 if rs:
                     route = rs[op[2] % len(rs)]
-                    if route in ("pd_index_values", "pd_index_name") and case.get("no_index_buffer_writes"):
-                        continue
+                    if route in ("pd_index_values", "pd_index_name") and case.get("no_index_buffer_writes") \
+                            and not name.startswith("result."):
+                        continue     # the known finding is about objects returned by the MATRIX only
                     ok = mutate(obj, route)
                     accepted += ok
                     log.append([name, route, bool(ok)])
@@ -376,7 +394,7 @@ def run(ctx):
         ctx.count("kind:" + c["kind"])
         if "error" in o:
             ctx.case_seen(c, False)
-            if c["kind"] == "history" and not c.get("no_index_buffer_writes"):
+            if "ops" in c and not c.get("no_index_buffer_writes"):
                 # a write through a returned pandas Index (the known finding) can leave the matrix with
                 # duplicate labels, after which a later accessor raises: the same history without those writes
                 # decides whether that is what happened
@@ -392,7 +410,8 @@ def run(ctx):
                 ctx.count("accepted:" + route)
         if o["diffs"]:
             only_kf = False
-            if any(route in ("pd_index_values", "pd_index_name") and ok for _n, route, ok in o["log"]):
+            if any(route in ("pd_index_values", "pd_index_name") and ok and not _n.startswith("result.")
+                   for _n, route, ok in o["log"]):
                 c2 = dict(c)
                 c2["no_index_buffer_writes"] = True
                 o2 = run_history(c2)
